@@ -13,6 +13,24 @@ PROPS = {
         "note": "Trusted: Lean kernel; the hand-written model of buildDirectClaimRoute/buildDirectClaimPaymentRequest is tied to the code only by differential testing; the RPC calls that carry the built route (SendPay/SendPaymentV2) and the back-ends' honouring of it are not modelled.",
         "design_ref": "DESIGN.md §4 C24",
     },
+    "C27": {
+        "module": "PsVerif.Props.C27",
+        "slices": [("premium", 4000, 300000), ("premiumstore", 3000, 100000)],
+        "monitor": (2500, 100000),
+        "technique": "Lean 4 theorems (int64 wrap arithmetic, map refinement by induction, key injectivity) over a model tied by differential operation sequences to the real premium.Setting on bbolt and to the rates the real peersync sends",
+        "text": "Proved for all amounts/rates: inside the no-overflow range (in particular amount <= 2^43 sat, |rate| <= 10^6) the premium is amount*rate/10^6 truncated toward zero; rate selection is peer, else stored default, else built-in; set/get/delete refine a finite map (all op sequences by induction over the bucket) and keys of distinct (peer, asset, op) never collide. The advertised-equals-charged clause is part of the model (both read getRate) and is tied by the differential slice that captures the real poll payload.",
+        "note": "Trusted: Lean kernel; hand-written model of premium.go/store.go tied by differential testing incl. reopen of the bbolt file; bbolt atomicity; outside the no-overflow range the product wraps (shown by the model, reported under C12).",
+        "design_ref": "DESIGN.md §4 C27",
+    },
+    "C30": {
+        "module": "PsVerif.Props.C30",
+        "slices": [("fee", 3000, 200000), ("version", 4000, 300000)],
+        "monitor": (3000, 200000),
+        "technique": "Lean 4 theorems over models of GetFee's rate selection, DetermineFeeFloor and CompareVersionStrings; differential correspondence; Go monitor (incl. order axioms on random triples)",
+        "text": "Proved: the rate used is >= floor for every estimator answer; error/zero estimates use max(fallback, floor); the floor is 25 iff the parsed (major, minor) >= (29, 2) else 253 (constants regenerated from the code); version comparison is reflexive and total on the numeric component lists and transitive on equal-length lists. PARTIAL: transitivity across strings with different numbers of components is not proved (only monitored on random triples).",
+        "note": "Trusted: Lean kernel; model of regexp digit-run extraction and strconv.Atoi overflow; float64 fee arithmetic is not modelled (the rate is recovered from the fee for a 250000-vbyte size, exact below 2^51).",
+        "design_ref": "DESIGN.md §4 C30",
+    },
 }
 
 # reasons for properties not (yet) claimed; anything absent gets a generic "not built yet"
